@@ -126,10 +126,13 @@ def open_finding_triggers(snap):
 
 
 # ------------------------------------------------------------------------------------------ C09
-def c09(snap):
+def c09(snap, details=None):
+  """details: optional list that receives, per message, a dict naming the record ({'field': id}, ...)."""
   msgs = []
-  def bad(mech, msg):
+  def bad(mech, msg, **info):
     msgs.append((mech, msg))
+    if details is not None:
+      details.append(info)
   T = rows_of(snap, '_grist_Tables')
   C = rows_of(snap, '_grist_Tables_column')
   V = rows_of(snap, '_grist_Views')
@@ -152,12 +155,12 @@ def c09(snap):
       bad('field.parentId', 'field #%s in missing section #%s' % (r, f['parentId']))
       continue
     if f['colRef'] not in C:
-      bad('field.colRef', 'field #%s -> missing column #%s' % (r, f['colRef']))
+      bad('field.colRef', 'field #%s -> missing column #%s' % (r, f['colRef']), field=r)
       continue
     sec = S[f['parentId']]
     if sec['tableRef'] and C[f['colRef']]['parentId'] != sec['tableRef']:
       bad('field.colRef.table', 'field #%s shows column #%s of table #%s in a section of table #%s' % (
-          r, f['colRef'], C[f['colRef']]['parentId'], sec['tableRef']))
+          r, f['colRef'], C[f['colRef']]['parentId'], sec['tableRef']), field=r)
     for k in ('displayCol', 'visibleCol'):
       if f[k] and f[k] not in C:
         bad('field.' + k, 'field #%s.%s -> missing column #%s' % (r, k, f[k]))
@@ -232,96 +235,207 @@ def removed_rows(S0, S1):
   return removed
 
 
-def c10(S0, S1, written_cols=()):
-  """No data Ref/RefList cell refers to a row removed between S0 and S1; RefLists keep the rest."""
+def meta_types_from_schema(schema):
+  """verif_schema()['schema'] -> {metadata table: {col: type}} (metadata tables have no column records)."""
+  return {t: {c[0]: c[1] for c in cols if not c[2]} for t, cols in schema.items() if t.startswith('_grist_')}
+
+
+def ref_columns(snap, meta_types=None):
+  """
+  Every data (non-formula) Ref / RefList column of the document: {(table, col): info} with
+  info = {'type', 'base', 'target', 'formula', 'refires', 'reverse': (t, c) or None,
+          'summary_source': (t, c) or None}. `refires`: the column has a trigger formula that runs
+  again on updates of its record (recalcWhen 2 or recalcDeps), so what it holds after a bundle that
+  touched its record is whatever that formula says.
+  """
+  out = {}
+  meta = colmeta(snap)
+  byref = {m['ref']: k for k, m in meta.items()}
+  for (t, c), m in meta.items():
+    base, _, tgt = (m['type'] or '').partition(':')
+    if m['isFormula'] or base not in ('Ref', 'RefList') or t not in snap or c not in snap[t][1]:
+      continue
+    deps = dec_list(m.get('recalcDeps'))
+    out[(t, c)] = {'type': m['type'], 'base': base, 'target': tgt, 'formula': m['formula'] or '',
+                   'refires': bool(m['formula']) and (m.get('recalcWhen') == 2 or bool(isinstance(deps, list) and deps)),
+                   'reverse': byref.get(m['reverseCol']) if m['reverseCol'] else None,
+                   'summary_source': byref.get(m['summarySourceCol']) if m['summarySourceCol'] else None}
+  for t, cols in (meta_types or {}).items():
+    if t not in snap:
+      continue
+    for c, typ in cols.items():
+      base, _, tgt = typ.partition(':')
+      if base in ('Ref', 'RefList') and c in snap[t][1]:
+        out[(t, c)] = {'type': typ, 'base': base, 'target': tgt, 'formula': '', 'refires': False,
+                       'reverse': None, 'summary_source': None}
+  return out
+
+
+def close_written(cols, refcols):
+  """Closure of a set of written (table, col): two-way partners and summary group-by copies are written too."""
+  out = set(cols)
+  changed = True
+  while changed:
+    changed = False
+    for k, info in refcols.items():
+      if k in out:
+        if info['reverse'] and info['reverse'] not in out:
+          out.add(info['reverse']); changed = True
+      else:
+        if (info['reverse'] in out) or (info['summary_source'] in out):
+          out.add(k); changed = True
+  return out
+
+
+def c10(S0, S1, written_after=(), written_any=(), judge_rest=True, meta_types=None, stats=None):
+  """
+  No data Ref / RefList cell refers to a row removed between S0 and S1; a RefList cell equals its old
+  list without the removed ids (None when nothing remains).
+    written_after: columns that an action *after* the first removing action of the bundle may have
+                   written (a later write may legitimately name a row that is gone): not judged at all;
+    written_any:   columns written anywhere in the bundle: the comparison with the old list is void;
+    judge_rest:    False when the bundle contains writers whose columns cannot be told.
+  Wrong-typed cells (alt text) and formula columns are ignored. Returns (msgs, cells checked).
+  """
   msgs = []
+  if stats is None:
+    stats = {}
+  def cnt(k, n=1):
+    stats[k] = stats.get(k, 0) + n
   removed = removed_rows(S0, S1)
   if not removed:
     return msgs, 0
-  meta1 = colmeta(S1)
-  meta0 = colmeta(S0)
+  rc1 = ref_columns(S1, meta_types)
+  rc0 = ref_columns(S0, meta_types)
+  written_after = close_written(written_after, rc1)
+  written_any = close_written(set(written_any) | written_after, rc1)
   checked = 0
-  for (t, c), m in meta1.items():
-    typ = m['type']
-    if m['isFormula'] or t not in S1 or c not in S1[t][1]:
+  for (t, c), info in sorted(rc1.items()):
+    tgt, base = info['target'], info['base']
+    if tgt not in removed:
       continue
-    base, _, tgt = typ.partition(':')
-    if base not in ('Ref', 'RefList') or tgt not in removed:
+    if info['refires']:
+      cnt('skipped.refiring_trigger_column')
       continue
-    if (t, c) in written_cols:
-      continue      # the bundle itself wrote this column after the removal: not judged
+    if (t, c) in written_after:
+      cnt('skipped.column_written_after_removal')
+      continue
     gone = removed[tgt]
     old = None
-    m0 = meta0.get((t, c))
-    if m0 and m0['type'] == typ and t in S0 and c in S0[t][1]:
+    i0 = rc0.get((t, c))
+    if judge_rest and (t, c) not in written_any and i0 and i0['type'] == info['type'] and not i0['refires']:
       old = dict(zip(S0[t][0], S0[t][1][c]))
     for r, v in zip(S1[t][0], S1[t][1][c]):
       checked += 1
       if base == 'Ref':
         if is_num(v) and v in gone:
           msgs.append(('ref.dangling', '%s.%s[%s] still points at removed %s[%s]' % (t, c, r, tgt, v)))
-      else:
-        l = dec_list(v)
-        if isinstance(l, list):
-          if any(is_num(x) and x in gone for x in l):
-            msgs.append(('reflist.dangling', '%s.%s[%s] = %s still contains a removed %s row' % (t, c, r, l, tgt)))
-          if not l:
-            msgs.append(('reflist.empty', '%s.%s[%s] is an empty list instead of None' % (t, c, r)))
-        if old is not None and r in old and (t, c) not in written_cols:
-          lo = dec_list(old[r])
-          if isinstance(lo, list) and any(is_num(x) and x in gone for x in lo):
-            exp = [x for x in lo if not (is_num(x) and x in gone)]
-            got = l if isinstance(l, list) else ([] if l is None else l)
-            if got != exp:
-              msgs.append(('reflist.rest', '%s.%s[%s]: was %s, removed %s, now %s (expected %s)' % (
-                  t, c, r, lo, sorted(gone), l, exp or None)))
-          elif old[r] != v and not (isinstance(lo, list) and not lo):
-            if (base == 'RefList'):
-              msgs.append(('reflist.untouched', '%s.%s[%s] changed from %s to %s though it held no removed row' % (
-                  t, c, r, old[r], v)))
+        continue
+      l = dec_list(v)
+      if isinstance(l, list) and any(is_num(x) and x in gone for x in l):
+        msgs.append(('reflist.dangling', '%s.%s[%s] = %s still contains a removed %s row' % (t, c, r, l, tgt)))
+        continue
+      if old is None or r not in old:
+        continue
+      lo = dec_list(old[r])
+      if not isinstance(lo, list):
+        continue      # was None or alt text: nothing to keep
+      if any(is_num(x) and x in gone for x in lo):
+        exp = [x for x in lo if not (is_num(x) and x in gone)] or None
+        cnt('reflist_cells_that_held_removed_ids')
+        if l != exp:
+          msgs.append(('reflist.rest', '%s.%s[%s]: was %s, removed %s, now %s (expected %s)' % (
+              t, c, r, lo, sorted(gone), v, exp)))
+      elif old[r] != v:
+        msgs.append(('reflist.untouched', '%s.%s[%s] changed from %s to %s though it held no removed row' % (
+            t, c, r, old[r], v)))
   return msgs, checked
 
 
 # ------------------------------------------------------------------------------------------ C11
-def c11(S1):
-  msgs = []
+def is_row_id(v):
+  return is_num(v) and v == int(v)
+
+
+def ref_cell_targets(v, base):
+  """Row ids a reference cell refers to, or None if the cell does not hold a value of the column's
+  type (alt text, a list in a Ref column, a list with a non-id element, a fractional number)."""
+  if base == 'Ref':
+    if is_row_id(v):
+      return [int(v)] if v else []
+    return None
+  l = dec_list(v)
+  if l is None:
+    return []
+  if isinstance(l, list) and all(is_row_id(x) for x in l):
+    return [int(x) for x in l]
+  return None
+
+
+def two_way_pairs(S1):
+  """-> (pairs, problems): pairs = list of ((t, c), (t2, c2)) mutually linked reference columns (each
+  pair once), problems = messages about links that are dangling or not mutual."""
   meta = colmeta(S1)
   byref = {m['ref']: k for k, m in meta.items()}
-  pairs = 0
-  for (t, c), m in meta.items():
+  pairs, problems = [], []
+  for (t, c), m in sorted(meta.items()):
     if not m['reverseCol']:
       continue
     if m['reverseCol'] not in byref:
-      msgs.append(('reverse.dangling', '%s.%s reverseCol -> missing column' % (t, c)))
+      problems.append(('reverse.dangling', '%s.%s reverseCol -> missing column' % (t, c)))
       continue
     (t2, c2) = byref[m['reverseCol']]
     if meta[(t2, c2)]['reverseCol'] != m['ref']:
-      msgs.append(('reverse.notmutual', '%s.%s <-> %s.%s not mutual' % (t, c, t2, c2)))
+      problems.append(('reverse.notmutual', '%s.%s <-> %s.%s not mutual' % (t, c, t2, c2)))
       continue
+    if ((t2, c2), (t, c)) not in pairs:
+      pairs.append(((t, c), (t2, c2)))
+  return pairs, problems
+
+
+def c11(S1, details=None):
+  """
+  Two-way references are symmetric: for every linked pair, {(a, b) | b in cell(a)} equals the inverse of
+  the partner's relation, over cells that hold values of the column's type and rows that exist.
+  details: optional list receiving, per message, {'pair': ((t, c), (t2, c2))} or {}.
+  Returns (msgs, n) with n = pairs + related cells compared.
+  """
+  msgs = []
+  meta = colmeta(S1)
+  pairs, problems = two_way_pairs(S1)
+  for pr in problems:
+    msgs.append(pr)
+    if details is not None:
+      details.append({})
+  n = 0
+  for (t, c), (t2, c2) in pairs:
+    ma, mb = meta[(t, c)], meta[(t2, c2)]
     if t not in S1 or t2 not in S1 or c not in S1[t][1] or c2 not in S1[t2][1]:
       continue
-    def rel(t, c):
+    if ma['isFormula'] or mb['isFormula']:
+      continue
+    ba, _, ta = (ma['type'] or '').partition(':')
+    bb, _, tb = (mb['type'] or '').partition(':')
+    if ba not in ('Ref', 'RefList') or bb not in ('Ref', 'RefList') or ta != t2 or tb != t:
+      continue     # linked columns that are not references to each other's tables: the statement is about reference cells
+    def rel(t, c, base):
       out = set()
       for r, v in zip(S1[t][0], S1[t][1][c]):
-        if is_num(v):
-          if v:
-            out.add((r, int(v)))
-        else:
-          l = dec_list(v)
-          if isinstance(l, list):
-            out.update((r, int(x)) for x in l if is_num(x))
+        tg = ref_cell_targets(v, base)
+        if tg:
+          out.update((r, x) for x in tg)
       return out
-    A = rel(t, c)
-    Bv = rel(t2, c2)
     rowsA = set(S1[t][0])
     rowsB = set(S1[t2][0])
-    A = {(a, b) for (a, b) in A if b in rowsB}
-    Bi = {(b, a) for (a, b) in Bv if b in rowsA}
-    pairs += len(A) + 1
+    A = {(a, b) for (a, b) in rel(t, c, ba) if b in rowsB}
+    Bi = {(b, a) for (a, b) in rel(t2, c2, bb) if b in rowsA}
+    n += len(A) + 1
     if A != Bi:
       msgs.append(('asymmetric', '%s.%s vs %s.%s: only forward %s | only backward %s' % (
           t, c, t2, c2, sorted(A - Bi)[:4], sorted(Bi - A)[:4])))
-  return msgs, pairs
+      if details is not None:
+        details.append({'pair': ((t, c), (t2, c2))})
+  return msgs, n
 
 
 # ------------------------------------------------------------------------------------------ C12
@@ -402,7 +516,20 @@ def c12(S1, stats=None):
     if any(is_error(srows[r][sc]) for r in srows for (gc, sc, typ) in gcols):
       skip('error_in_groupby_cell')    # rows with error keys are outside the statement (and C05's open finding)
       continue
+    # Values the wire format cannot carry faithfully (['U', repr] of an arbitrary object, pending / censored
+    # markers) or that cannot be keys at all (['O', dict]): equal encodings need not be equal values.
+    def opaque(v):
+      return isinstance(v, list) and len(v) > 0 and v[0] in ('U', 'P', 'C', 'S', 'O', 'E')
+    if any(opaque(srows[r][sc]) for r in srows for (gc, sc, typ) in gcols) or \
+       any(opaque(strows[r][gc]) for r in strows for (gc, sc, typ) in gcols):
+      skip('opaque_value_in_groupby_cell')
+      continue
     named_like_option = any(gc in LOOKUP_OPTION_NAMES or sc in LOOKUP_OPTION_NAMES for (gc, sc, typ) in gcols)
+    for (gc, sc, typ) in gcols:
+      k = 'judged_groupby.' + typ.split(':')[0]
+      stats[k] = stats.get(k, 0) + 1
+    if not gcols:
+      stats['judged_groupby.(none)'] = stats.get('judged_groupby.(none)', 0) + 1
     def mech_of(m):
       return 'groupby_column_named_like_lookup_option' if named_like_option else m
     expected = {}
